@@ -11,6 +11,7 @@ sys.path.insert(0, str(Path(__file__).resolve().parent))
 sys.path.insert(0, str(Path(__file__).resolve().parent.parent / 'translate'))
 import lib  # noqa
 import c17_tensor  # noqa
+import c17_align  # noqa
 
 PID = 'C17'
 LTE_BINDING = (False, False)     # (g2l, l2g) rows bound by id? set from the translation
@@ -151,7 +152,7 @@ def gen_cases(ctx):
         add({'kind': 'sym', 'a': [[pair(x) for x in r] for r in rows], 'order': order, 'eng': eng,
              'order_as': 'ndarray'})
     # dtypes (float32 / int64 / int32), falsy and truthy non-bool flag values, a big batch
-    for _ in range(120 if thorough else 24):
+    for _ in range(120 if thorough or getattr(ctx, 'widened', False) else 24):
         dt = rng.choice(['float32', 'int64', 'int32', 'float64'])
         eng = rng.random() < 0.6
         if dt.startswith('int'):
@@ -168,7 +169,8 @@ def gen_cases(ctx):
         add({'kind': 'sym', 'a': [[pair(x) for x in r] for r in rows], 'order': rng.sample(range(6), 6),
              'eng': rng.random() < 0.5, 'tile': 10001})          # 70 007 rows (> 65 536)
     # --- principal components / reconstruction
-    reps = 20 if thorough else 1
+    wide = getattr(ctx, 'widened', False)
+    reps = 20 if thorough else 6 if wide else 1
     for _ in range(reps):
         for M in INT_ROT:
             for label, lam in tensor_menu(rng):
@@ -186,14 +188,14 @@ def gen_cases(ctx):
                     a = [Fr(float(__import__('numpy').float32(float(x)))) for x in a]
                 c_['a'] = [[pair(x) for x in a]]
                 add(c_)
-    for _ in range(200 if thorough else 8):      # random integer / dyadic symmetric tensors
+    for _ in range(200 if thorough else 60 if wide else 8):      # random integer / dyadic symmetric tensors
         n = rng.randint(1, 3)
         rows = [[dyadic(rng, rng.choice(['mid', 'int', 'small'])) for _ in range(6)] for _ in range(n)]
         add({'kind': 'pc', 'a': [[pair(x) for x in r] for r in rows],
              'order': rng.choice([None, rng.sample(range(6), 6)]), 'eng': rng.random() < 0.5,
              'label': 'random'})
     # --- strain inversion (I + A well conditioned .. moderately ill conditioned)
-    for _ in range(300 if thorough else 14):
+    for _ in range(300 if thorough else 100 if wide else 14):
         kind = rng.choice(['small', 'small', 'spectrum', 'near'])
         eng = rng.random() < 0.5
         if kind == 'small':
@@ -241,7 +243,7 @@ def gen_cases(ctx):
                 ids = [ids[0]] + mid + [ids[-1]]
             return ids, how
         return base, variant, mode
-    for _ in range(200 if thorough else 24):
+    for _ in range(200 if thorough else 120 if wide else 24):
         n = rng.randint(1, 6)
         rows = []
         for _r in range(n):
@@ -304,14 +306,26 @@ def gen_cases(ctx):
                         ent.append([i, j, pair(v)])
             rng.shuffle(ent)
             fmt = rng.choice(['csr', 'csr', 'coo', 'csr_unsorted'])
-            if fmt == 'csr_unsorted' and ent and rng.random() < 0.5:
+            if fmt in ('csr_unsorted', 'coo') and ent and rng.random() < 0.5:
                 for e in rng.sample(ent, min(len(ent), rng.randint(1, 2))):   # duplicated entries
                     ent.insert(rng.randrange(len(ent) + 1),
                                [e[0], e[1], pair(Fr(rng.randint(-64, 64), 8))])
             mats.append({'format': fmt, 'entries': ent})
-        if all(m['format'] == 'coo' for m in mats) or rng.random() < 0.5:
-            pass
         add({'kind': 'align', 'shape': [nr, nc], 'mats': mats})
+    # --- sparse alignment, malformed: one matrix of another shape (ValueError), the empty list
+    for _ in range(40 if thorough or ext else 6):
+        nr, nc = rng.randint(1, 4), rng.randint(1, 4)
+        mats = []
+        for _m in range(rng.randint(2, 4)):
+            ent = [[i, j, pair(Fr(rng.randint(-9, 9), 2))] for i in range(nr) for j in range(nc)
+                   if rng.random() < 0.4]
+            mats.append({'format': rng.choice(['csr', 'coo']), 'entries': ent})
+        k = rng.randrange(len(mats))
+        other = rng.choice([[nr + 1, nc], [nr, nc + 1], [nr + 2, nc + 1], [nr + 1, nc + 2]])
+        mats[k] = {'format': mats[k]['format'], 'shape': other,
+                   'entries': [e for e in mats[k]['entries']]}
+        add({'kind': 'align', 'shape': [nr, nc], 'mats': mats, 'expect_error': 'ValueError'})
+    add({'kind': 'align', 'shape': [2, 2], 'mats': [], 'expect_error': 'IndexError'})
     # --- sparse alignment, huge SHAPES (n_row * n_col > 2^31; a handful of entries
     # near the corners and on both sides of the 2^31 / 2^32 flat-key boundaries)
     for _ in range(40 if thorough or ext else 6):
@@ -403,6 +417,10 @@ def scale_of(vals):
 def oracle(c, r):
     """the property itself on the implementation's results; list of (what, detail)"""
     bad = []
+    if c.get('expect_error'):
+        if 'error' in r and r['error'].startswith(c['expect_error']):
+            return []
+        return [('no-' + c['expect_error'], r.get('error', 'returned a value'))]
     if 'error' in r:
         return [('raised', r['error'])]
     k = c['kind']
@@ -582,13 +600,18 @@ def inv_amplification(r, i):
 
 # ------------------------------------------------------- correspondence (Coq)
 HEADER = ('From Coq Require Import List ZArith QArith Bool.\nImport ListNotations.\n'
-          'From FV.C17 Require Import Model Corr.\nSet Printing Width 100000.\n')
+          'From FV.C17 Require Import Model AlignEntry Corr.\nSet Printing Width 100000.\n')
 
 
 def coq_items(c, r):
     """list of (sub-id, Coq bool expression) for one case"""
     k = c['kind']
     out = []
+    if 'error' in r and k == 'align':
+        e = {'ValueError': 'EValue', 'IndexError': 'EIndex'}.get(r['error'].split(':')[0])
+        if e is None:
+            return [('0', 'false')]
+        return [('e', f'chk_align_entry {spm_list(c)} (inr {e})')]
     if 'error' in r:
         return [('0', 'false')]
     if k == 'sym':
@@ -682,7 +705,36 @@ def coq_items(c, r):
         ms = lib.coq_list([stored(m) for m in c['mats']])
         outs = lib.coq_list([read_back(o['entries']) for o in r['out']])
         out.append(('0', f'chk_align {ms} {outs}'))
+        # the caller's level: format, shape and (row, col, value) entries as handed to femio;
+        # the model computes the flat keys, .tocsr() and the union pattern itself
+        def spm_out(o):
+            ent = lib.coq_list([f'(({lib.coq_Z(e[0])}, {lib.coq_Z(e[1])}), {q(frs(e[2]))})'
+                                for e in o['entries']])
+            fm = 'CSR' if o['format'] == 'csr' else 'COO'
+            return f"(mk_spm {fm} ({lib.coq_Z(o['shape'][0])}, {lib.coq_Z(o['shape'][1])}) {ent})"
+        if all(None not in [frs(e[2]) for e in o['entries']] for o in r['out']):
+            outs2 = lib.coq_list([spm_out(o) for o in r['out']])
+            out.append(('e', f'chk_align_entry {spm_list(c)} (inl {outs2})'))
+        else:
+            out.append(('e', 'false'))
     return out
+
+
+def spm_list(c):
+    """the matrices of an align case as the implementation receives them: 'csr' = canonical
+    storage ((row, col) order), 'csr_unsorted' = rows ascending, the given order (and the
+    duplicates) inside a row, 'coo' = the triplets as given"""
+    def one(m):
+        ent = m['entries']
+        if m['format'] == 'csr':
+            ent = sorted(ent, key=lambda e: (e[0], e[1]))
+        elif m['format'] == 'csr_unsorted':
+            ent = sorted(ent, key=lambda e: e[0])        # stable
+        sh = m.get('shape', c['shape'])
+        el = lib.coq_list([f'(({lib.coq_Z(e[0])}, {lib.coq_Z(e[1])}), {q(Fr(*e[2]))})' for e in ent])
+        fm = 'COO' if m['format'] == 'coo' else 'CSR'
+        return f'(mk_spm {fm} ({lib.coq_Z(sh[0])}, {lib.coq_Z(sh[1])}) {el})'
+    return lib.coq_list([one(m) for m in c['mats']])
 
 
 def run_corr(ctx, cases, res):
@@ -770,6 +822,8 @@ def main(ctx):
     ]
     # 1. translate
     tie_ok = True
+    degraded = False          # T -> H: baseline model + widened correspondence
+    baseline = (lib.COQ / PID / 'gen_baseline' / 'TensorIdx.v.txt').read_text()
     try:
         tr, consumed = c17_tensor.translate(str(lib.REPO))
         ctx.sources = consumed
@@ -778,19 +832,49 @@ def main(ctx):
         global LTE_BINDING
         LTE_BINDING = tuple(c17_tensor.binding_by_id(tr.fn[m]) for m in c17_tensor.METHODS)
         ctx.notes['lte_rows_bound_by_id'] = dict(zip(c17_tensor.METHODS, LTE_BINDING))
-        lib.write_if_changed(lib.COQ / PID / 'gen' / 'TensorIdx.v', c17_tensor.emit(tr))
+        text = c17_tensor.emit(tr)
+        lib.write_if_changed(lib.COQ / PID / 'gen' / 'TensorIdx.v', text)
+        if tr.widenings:
+            ctx.notes['translator_widenings'] = tr.widenings
+        ctx.notes['translation_equals_baseline'] = (text == baseline)
     except (c17_tensor.TranslateError, SyntaxError, KeyError, AttributeError, TypeError,
-            ValueError, IndexError) as e:
-        tie_ok = False
-        ctx.log('translator failed closed:', e)
+            ValueError, IndexError, RecursionError) as e:
+        # the translator cannot read the region: this alone is not a violation.  The last
+        # translation of the registered tree (gen_baseline) becomes the HAND model, the theorems
+        # are built against it and a widened correspondence + oracle decides
+        degraded = True
+        ctx.log('translator could not read the region; degrading T -> H:', e)
         ctx.notes['translator_error'] = f'{type(e).__name__}: {e}'
-    # 1b. tie of the hand model of align_nnz: exact-body match of the source
+        lib.write_if_changed(lib.COQ / PID / 'gen' / 'TensorIdx.v', baseline)
+        LTE_BINDING = tuple(f'Definition {m}_bound_by_id : bool := true.' in baseline
+                            for m in c17_tensor.METHODS)
+        ctx.notes['lte_rows_bound_by_id'] = dict(zip(c17_tensor.METHODS, LTE_BINDING))
+        ctx.widened = True
+    # 1a. align_nnz: the key expression and the decisions the entry-level model relies on (T)
+    align_T = True
+    align_base = (lib.COQ / PID / 'gen_baseline' / 'AlignCfg.v.txt').read_text()
+    try:
+        acfg, aconsumed = c17_align.translate(str(lib.REPO))
+        ctx.sources.update(aconsumed)
+        ctx.notes['align_nnz_translated'] = acfg
+        lib.write_if_changed(lib.COQ / PID / 'gen' / 'AlignCfg.v', c17_align.emit(acfg))
+    except (c17_align.TranslateError, SyntaxError, KeyError, AttributeError, TypeError, ValueError,
+            IndexError, RecursionError) as e:
+        align_T = False
+        ctx.log('align_nnz translator could not read the function; degrading T -> H:', e)
+        ctx.notes['align_translator_error'] = f'{type(e).__name__}: {e}'
+        lib.write_if_changed(lib.COQ / PID / 'gen' / 'AlignCfg.v', align_base)
+        acfg = None
+    # 1b. the hand-written rest of the align_nnz model: body identical to the text it was written from?
     align_tie_ok, align_msg, align_sha = c17_tensor.check_align_nnz_body(str(lib.REPO))
     ctx.sources['functions.py:align_nnz'] = align_sha
     if not align_tie_ok:
         ctx.log('align_nnz tie:', align_msg)
         ctx.notes['align_nnz_tie'] = align_msg
-    ctx.align_extended = not align_tie_ok
+    ctx.align_extended = (not align_tie_ok) or (not align_T) or \
+        any(not acfg[f] for f in c17_align.FLAGS) or c17_align.emit(acfg) != align_base
+    if not hasattr(ctx, 'widened'):
+        ctx.widened = False
     # 2. proofs
     proof_ok = False
     corr_built = False
@@ -880,8 +964,10 @@ def main(ctx):
     ctx.notes['impl_property_failures'] = n_bad
     ctx.notes['impl_property_failures_by_kind'] = {f'{k}:{w}': n for (k, w), n in per_what.items()}
     # 5. correspondence
+    corr_failing, corr_cfail = [], []
     if corr_built:
         n_items, failing, cfail = run_corr(ctx, cases, res)
+        corr_failing, corr_cfail = failing, cfail
         ctx.corr = {'cases': len(cases), 'coq_comparisons': n_items, 'disagreements': len(failing),
                     'tolerance': 'exact for a2m/m2a, eigenvalues, kept directions, lte, orient, '
                                  'align_nnz (both streams, incl. the bit-exact one); '
@@ -915,16 +1001,44 @@ def main(ctx):
     except Exception as e:      # noqa
         ctx.notes['align_float_caveat_probe'] = 'probe failed: ' + str(e)[:200]
     # 6. broken tie / proof without a failing input
-    if not tie_ok and n_bad == 0:
-        ctx.violation('tie-broken', {'translator_error': ctx.notes.get('translator_error')},
-                      'translator accepts the tensor helpers', 'fail-closed',
-                      'translator c17_tensor', found_input=False, signature={'kind': 'tie-broken'})
-    if not align_tie_ok and not any(k == 'align' and (k, _w) not in known_whats for (k, _w) in per_what):
-        ctx.violation('tie-broken', {'function': 'align_nnz', 'message': align_msg},
-                      'functions.align_nnz is the text Model.align_nnz was written from',
-                      align_msg, 'exact-body tie of the hand model Model.align_nnz '
-                      '(C17_align_nnz_values); extended align_nnz search found no failing input',
-                      found_input=False, signature={'kind': 'tie-broken', 'function': 'align_nnz'})
+    corr_clean = corr_built and not corr_failing and not corr_cfail
+    ties = []
+    if degraded:
+        n_t = sum(1 for c in cases if c['kind'] != 'align')
+        if corr_clean and n_bad == 0:
+            ties.append('H (translator could not read the tensor helpers: %s; baseline model + widened '
+                        'correspondence, %d cases)' % (ctx.notes.get('translator_error', '')[:160], n_t))
+        elif not corr_built:
+            ctx.violation('tie-broken', {'translator_error': ctx.notes.get('translator_error')},
+                          'translator reads the tensor helpers, or the baseline model can be compared '
+                          'with the implementation', 'neither: the correspondence could not be built',
+                          'translator c17_tensor / correspondence', found_input=False,
+                          signature={'kind': 'tie-broken'})
+    else:
+        ties.append('T (tensor helpers re-translated from the tree under test)')
+    if align_T:
+        ties.append('T (align_nnz: key expression `%s` and %d decisions re-translated)'
+                    % (acfg['flat_key'], len(c17_align.FLAGS)))
+    if not align_T:
+        align_tie_ok = False
+        align_msg = 'translator could not read align_nnz: ' + ctx.notes.get('align_translator_error', '')[:160]
+    if not align_tie_ok:
+        n_a = sum(1 for c in cases if c['kind'] == 'align')
+        align_bad = any(k == 'align' and (k, _w) not in known_whats for (k, _w) in per_what)
+        if corr_clean and not align_bad:
+            # changed body => deeper search, not a violation
+            ties.append('H (align_nnz: %s; hand model Model.align_nnz + widened correspondence, %d cases)'
+                        % (align_msg, n_a))
+        elif not corr_built and not align_bad:
+            ctx.violation('tie-broken', {'function': 'align_nnz', 'message': align_msg},
+                          'functions.align_nnz is the text Model.align_nnz was written from, or the '
+                          'model can be compared with the implementation',
+                          align_msg + '; the correspondence could not be built',
+                          'tie of the hand model Model.align_nnz (C17_align_nnz_values)',
+                          found_input=False, signature={'kind': 'tie-broken', 'function': 'align_nnz'})
+    else:
+        ties.append('H (align_nnz: body identical to the text the placement model was written from)')
+    ctx.notes['tie'] = ties
     if tie_ok and not proof_ok and n_bad == 0:
         badn = [o['name'] for o in ctx.obligations if not o['discharged']]
         ctx.violation('proof-broken', {'log_tail': ctx.notes.get('build_log_tail', '')[-600:]},
